@@ -2,7 +2,7 @@
    Statements only; proofs are in Proofs/ValidateOverlap.v and Proofs/ValidateRules.v. *)
 From Coq Require Import List NArith ZArith String Bool.
 From GQL Require Import Exec.Syntax Validate.VSyntax Validate.Overlap Validate.OverlapSpec Validate.Rules
-     Exec.Exec Proofs.ValidateOverlap Proofs.ValidateRules Proofs.ValidateMerge Proofs.ValidateMemo Proofs.ValidateInputFields Proofs.ValidateArgs Proofs.ValidateCycles Proofs.ValidateUnused Proofs.ValidateMemoHard Proofs.ValidateL1.
+     Exec.Exec Proofs.ValidateOverlap Proofs.ValidateRules Proofs.ValidateMerge Proofs.ValidateMemo Proofs.ValidateInputFields Proofs.ValidateArgs Proofs.ValidateCycles Proofs.ValidateUnused Proofs.ValidateMemoHard Proofs.ValidateL1 Validate.All Proofs.ValidateAll.
 Import ListNotations.
 Open Scope string_scope.
 
@@ -259,6 +259,30 @@ Theorem C02_rule_complete_no_unused_fragments_partial : forall W,
   Violates_no_unused_fragments W -> rule_no_unused_fragments W <> [].
 Proof. exact no_unused_fragments_complete. Qed.
 Print Assumptions C02_rule_complete_no_unused_fragments_partial.
+
+(* NoUnusedFragments, both directions, when the closure iteration of the model did not fall
+   short (closures_stable is an executable test; RecursivelyReferencedFragments itself is a
+   terminating worklist). *)
+Theorem C02_rule_iff_no_unused_fragments : forall W,
+  closures_stable W = true ->
+  (rule_no_unused_fragments W <> [] <-> Violates_no_unused_fragments W).
+Proof. exact no_unused_fragments_iff. Qed.
+Print Assumptions C02_rule_iff_no_unused_fragments.
+
+(* The validator's model accepts a document iff no rule is violated (Violates r is the
+   declarative predicate of rule r; for the overlap rule it is ~ L1_accepts).  Hypotheses =
+   the documented exceptions: the closure test above; completeness of the NoFragmentCycles
+   DFS; for the overlap rule acyclicity and "the memoised algorithm's acceptance implies L1"
+   (proved: L1 => acceptance, and acceptance of L3 => acceptance of the unmemoised algorithm;
+   not proved: the reflection of the unmemoised executable into the Prop-level decomposition). *)
+Theorem C02_accept_iff : forall fuel S W,
+  closures_stable W = true ->
+  (Violates_no_fragment_cycles W -> rule_no_fragment_cycles W <> []) ->
+  acyclic S (erase W) ->
+  (run_overlap S (erase W) true fuel = [] -> L1_accepts S (erase W)) ->
+  (validate_model fuel S W = [] <-> forall r, ~ Violates r S W).
+Proof. exact accept_iff. Qed.
+Print Assumptions C02_accept_iff.
 
 (* ---- non-vacuity ---- *)
 Definition exS : schema :=
